@@ -179,9 +179,13 @@ fn decode_debug(bytes: &[u8]) -> String {
 }
 
 fn scenario(ctx: &Ctx, idx: u64) -> Report {
+    scenario_n(ctx, idx, ctx.tier.pick(20_000, 600_000))
+}
+
+/// The codec oracle over `n` generated messages (also used for the small sanitizer workloads).
+pub fn scenario_n(ctx: &Ctx, idx: u64, n: usize) -> Report {
     let mut report = Report::default();
     let mut rng = ChaCha8Rng::seed_from_u64(sseed(ctx, "codec", idx));
-    let n = ctx.tier.pick(20_000, 600_000);
     let info = |what: &str, enc: &[u8]| {
         replay_info("C13", "codec", ctx, idx)
             .with("transform", what)
